@@ -373,10 +373,24 @@ class State:
             self.ex.nsat += 1
             if s.check() == z3.sat:
                 return True
+            timeout = min(timeout, 800)
         s = z3.Solver()
         s.set("timeout", timeout)
-        s.add(self.pc)
-        s.add(extra)
+        if any(not is_linear(h) for h in self.pc) or not is_linear(extra):
+            # feasibility on the linearised abstraction (over-approximation: 'unsat' is sound, anything else = feasible);
+            # keeps nonlinear reasoning (and z3 runs that ignore their timeout) out of the branch exploration
+            try:
+                lz = Linearizer()
+                for h in self.pc:
+                    s.add(lz(h))
+                s.add(lz(extra))
+                for ax in lz.axioms():
+                    s.add(ax)
+            except z3.Z3Exception:
+                return True
+        else:
+            s.add(self.pc)
+            s.add(extra)
         r = s.check()
         self.ex.nsat += 1
         return r != z3.unsat
@@ -474,6 +488,44 @@ def is_linear(f):
             stack.extend(t.children())
     _lin_cache[k] = (f, ok)  # keep the ast alive: ids are reused after garbage collection
     return ok
+
+
+def has_quantifier(fs):
+    seen = set()
+    stack = list(fs)
+    while stack:
+        t = stack.pop()
+        if z3.is_quantifier(t):
+            return True
+        i = t.get_id()
+        if i in seen:
+            continue
+        seen.add(i)
+        if z3.is_app(t):
+            stack.extend(t.children())
+    return False
+
+
+def external_check(solver, timeout_s):
+    """z3 command line binary with a hard time limit; returns z3.sat / z3.unsat / z3.unknown"""
+    import subprocess
+    import tempfile
+
+    txt = solver.to_smt2()
+    with tempfile.NamedTemporaryFile("w", suffix=".smt2", delete=False, dir="/dev/shm") as f:
+        f.write(txt)
+        path = f.name
+    try:
+        out = subprocess.run(["z3-new", "-T:%d" % int(timeout_s), "-smt2", path], capture_output=True, text=True, timeout=timeout_s + 10)
+        first = (out.stdout.strip().splitlines() or ["unknown"])[0].strip()
+    except Exception:
+        first = "unknown"
+    finally:
+        try:
+            os.unlink(path)
+        except OSError:
+            pass
+    return {"sat": z3.sat, "unsat": z3.unsat}.get(first, z3.unknown)
 
 
 class Linearizer:
@@ -604,6 +656,18 @@ class Explorer:
             return
         self.seen.add(key)
         t0 = time.time()
+        if kind != "canary" and z3.is_true(z3.simplify(goal)):
+            ob = self.obs.get(name)
+            if ob is None:
+                self.obs[name] = Ob(id=name, status="proved", backend="simplifier", time_s=0.0, func=func or self.func, kind=kind, smt2=goal.sexpr()[:200])
+                self.obs[name].instances = 1
+            else:
+                ob.instances = getattr(ob, "instances", 1) + 1
+            return
+        if kind == "canary":
+            self.ncanary = getattr(self, "ncanary", 0) + 1
+            if self.ncanary > 6 and name in self.obs:
+                return
         if kind == "canary" and st.hints:
             s = z3.Solver()
             s.set("timeout", 3000)
@@ -635,12 +699,30 @@ class Explorer:
                 r = None
             if r != z3.unsat:
                 r = None
+        prev = self.obs.get(name)
+        if r is None and prev is not None and (prev.status == "refuted" or getattr(prev, "n_unknown", 0) >= 2):
+            prev.instances = getattr(prev, "instances", 1) + 1
+            return  # verdict for this obligation cannot get worse/more informative: do not burn the budget on every path
+        hinted = None
+        if r is None and st.hints and kind != "canary":
+            hinted = self._hinted_counterexample(st, goal)
+            if hinted is not None:
+                r = z3.sat
+                s = None
         if r is None:
             s = z3.Solver()
             s.set("timeout", self.timeout_ms)
             s.add(st.pc)
             s.add(z3.Not(goal))
-            r = s.check()
+            nonlin = any(not is_linear(h) for h in st.pc) or not is_linear(goal)
+            if kind == "canary" and nonlin:
+                r = z3.unknown  # vacuity of nonlinear path conditions: hinted model search / linearised refutation only
+            elif nonlin and has_quantifier(st.pc + [goal]):
+                # nonlinear + quantified queries can make the in-process solver ignore its timeout: run the z3 binary
+                # under a hard wall-clock limit instead (same formula, SMT-LIB text)
+                r = external_check(s, max(5, self.timeout_ms // 1000))
+            else:
+                r = s.check()
         dt = time.time() - t0
         status = "proved" if r == z3.unsat else ("refuted" if r == z3.sat else "unknown")
         backend = "z3"
@@ -649,9 +731,13 @@ class Explorer:
         if r == z3.sat:
             from .common import model_str, model_json
 
-            detail = model_str(s.model())
-            witness = model_json(s.model())
-        elif r == z3.unknown and st.hints and self._hinted_counterexample(st, goal) is not None:
+            try:
+                mdl = hinted if hinted is not None else s.model()
+                detail = model_str(mdl)
+                witness = model_json(mdl)
+            except (z3.Z3Exception, AttributeError):
+                detail = "sat (external z3 run; no model extracted)"
+        elif r == z3.unknown and st.hints and kind == "canary" and self._hinted_counterexample(st, goal) is not None:
             from .common import model_str, model_json
 
             mdl = self._hinted_counterexample(st, goal)
@@ -669,20 +755,27 @@ class Explorer:
             elif r2 == "sat":
                 status, detail = "refuted", "cvc5: sat (z3: unknown)"
             else:
-                detail = "z3: %s; cvc5: %s" % (s.reason_unknown(), r2)
+                try:
+                    why = s.reason_unknown()
+                except z3.Z3Exception:
+                    why = "timeout"
+                detail = "z3: %s; cvc5: %s" % (why or "timeout", r2)
         ob = self.obs.get(name)
         if ob is None:
             ob = Ob(id=name, status=status, backend=backend, time_s=dt, detail=detail, witness=witness,
                     func=func or self.func, kind=kind)
             try:
-                ob.smt2 = s.to_smt2()[:1200]
+                ob.smt2 = s.to_smt2()[:1200] if s is not None else goal.sexpr()[:600]
             except Exception:
                 pass
             ob.instances = 1
+            ob.n_unknown = 1 if status == "unknown" else 0
             self.obs[name] = ob
         else:
             ob.instances = getattr(ob, "instances", 1) + 1
             ob.time_s += dt
+            if status == "unknown":
+                ob.n_unknown = getattr(ob, "n_unknown", 0) + 1
             rank = {"proved": 0, "unknown": 1, "error": 2, "refuted": 3}
             if rank[status] > rank[ob.status]:
                 ob.status, ob.detail, ob.witness, ob.backend = status, detail, witness, backend
@@ -991,7 +1084,7 @@ class Interp:
         if not getattr(f.node, "_loops_numbered", False):
             self.number_loops(f.node)
             f.node._loops_numbered = True
-        self.func_stack.append((f.qualname, [0]))
+        self.func_stack.append((f.qualname, [0], f, env))
         try:
             self.exec_block(f.node.body, env, f.module)
         except ReturnSig as r:
@@ -1170,7 +1263,7 @@ class Interp:
 
     def next_loop_id(self, node=None):
         """static ordinal of the loop statement within its function (source order, nested defs excluded)"""
-        qn, ctr = self.func_stack[-1]
+        qn, ctr = self.func_stack[-1][0], self.func_stack[-1][1]
         qn = qn.replace("__top__", "").split(":")[-1]
         if node is not None:
             o = getattr(node, "_loop_ord", None)
@@ -1447,7 +1540,27 @@ class Interp:
         return item in container
 
     def e_Attribute(self, e, env, module):
+        if isinstance(e.value, ast.Call) and isinstance(e.value.func, ast.Name) and e.value.func.id == "super" and not e.value.args:
+            return self.super_attr(e.attr)
         return self.getattr(self.eval(e.value, env, module), e.attr)
+
+    def super_attr(self, attr):
+        """super().attr inside a method of an interpreted class: the method of the nearest base class that defines it"""
+        for ent in reversed(self.func_stack):
+            if len(ent) >= 4 and ent[2].cls is not None:
+                f, env = ent[2], ent[3]
+                selfname = f.node.args.args[0].arg
+                selfobj = env.lookup(selfname)
+                c = f.cls
+                for b in c.bases:
+                    if isinstance(b, ast.Name) and b.id in c.module.defs and isinstance(c.module.defs[b.id], ClassVal):
+                        m = self.find_method(c.module.defs[b.id], attr)
+                        if m is not None:
+                            return BoundMethod(m, selfobj)
+                if attr == "__init__":
+                    return lambda *a, **k: None
+                raise Unsupported("super().%s not found" % attr)
+        raise Unsupported("super() outside a method")
 
     def getattr(self, base, attr):
         if isinstance(base, Obj):
